@@ -101,6 +101,59 @@ def layered_update_rule(ck, F, ty, rule="V5"):
 
 
 
+def extrinsic_only_rule(ck, F, ty, rule="V7"):
+    """layered check update: the old check message enters the computation only as part of the extrinsic value vars[d] - msg.value
+    (the message to a check is the variable's total minus that check's own contribution); the two stores are V5's business"""
+    path = "<%s%s as %s>::update_check_messages_and_vars" % (ARI, ty, TRAIT)
+    b = F.body(path)
+    t7 = Tracer(F, "NONE", mode="int")
+    env = {}
+    for p, nm in zip(b.params, ("self", "check_messages", "vars")):
+        t7.bind(p, var(nm), env)
+    try:
+        t7.eval(b.value, env)
+    except Unsupported as e:
+        raise AnalysisError("%s: unreadable shape: %s" % (path, e))
+    vals = []
+    for st in t7.assign_sites:
+        vals.append(st[1])
+        vals += [g for g, _ in st[3]]
+    for e in t7.events:
+        vals += [g for g, _ in e.guards]
+        if e.callee == "<assign>":
+            is_var_store = "index(" in repr(e.args[0]) and "vars" in repr(e.args[0])[:40]
+            if not is_var_store:
+                vals.append(e.args[1])
+        else:
+            vals += list(e.args)
+
+    def polys(v):
+        if isinstance(v, Poly):
+            yield v
+            for mono in v.t:
+                for a, _ in mono:
+                    if a[0] == "f":
+                        for k in a[2:]:
+                            yield from polys(k)
+        elif isinstance(v, (tuple, list)):
+            for x in v:
+                yield from polys(x)
+    n, bad = 0, []
+    for v in vals:
+        for p_ in polys(v):
+            for mono, c in p_.t.items():
+                if len(mono) == 1 and mono[0][1] == 1 and atom_fn(mono[0][0]) == ".value":
+                    n += 1
+                    el = atom_args(mono[0][0])[0]
+                    paired = any(len(m2) == 1 and m2[0][1] == 1 and atom_fn(m2[0][0]) == "index" and atom_args(m2[0][0])[0] == var("vars") and
+                                 atom_args(m2[0][0])[1] == app(".dest", el) and c2 == -c for m2, c2 in p_.t.items())
+                    if not paired and repr(p_)[:160] not in bad:
+                        bad.append(repr(p_)[:160])
+    ck.inst(rule, ty + ":extrinsic-only", n >= 1 and not bad, b.span,
+            "every read of an old check message in the layered check rule is part of vars[dest] - msg.value (%d reads)%s" % (
+                n, (" ; but it is also read as " + " | ".join(bad[:2])) if bad else ""))
+
+
 def run(ck, F, tier):
     maxdeg = MAXDEG
     ck.explanation = (
@@ -120,6 +173,7 @@ def run(ck, F, tier):
     ck.rule("V3", "quantiser range and shape")
     ck.rule("V4", "hook closures applied match the type name")
     ck.rule("V5", "layered update = extrinsic in, extrinsic + new message out")
+    ck.rule("V7", "the old check message is read only inside the extrinsic value vars[dest] - msg.value")
     ck.rule("V6", "the layered update reads its scratch vector only over the prefix written in the same call (zip with the same message slice; only len()/resize() otherwise)")
     ck.rule("V5b", "8-bit check rules work on quantised (i8, clipped) magnitudes only: abs/min/lookup never see the i16 accumulator")
     ck.trust("interval models of exp, ln_1p, round, abs, min, max, saturating_add, float->int `as` (saturating, NaN -> 0), Iterator::sum over at most %d terms" % maxdeg)
@@ -304,6 +358,7 @@ def run(ck, F, tier):
         ck.inst("V2", ty + ":variable-rule", ok, b.span, why)
 
         layered_update_rule(ck, F, ty)
+        extrinsic_only_rule(ck, F, ty)
 
     # ---- V6 -------------------------------------------------------------------------------------------------
     from .c10 import scratch_discipline
